@@ -16,6 +16,8 @@ import (
 //
 //	dataset: empty (no entity at all) | nulls (entities without any field, empty / absent set buckets)
 //	         | full (every field set, sets with elements, linked entities)
+//	         | mixedA / mixedB (the full entities plus entities without fields and partially filled ones,
+//	           sorting before (A) or after (B) the full ones in id order)
 //	-> bolt=<ok:n | err> iter=<n | err>      a Go panic is caught by safeExec and printed as `panic ...`
 //
 // Only freedom from panics (and termination) is judged for B cases; what the queries return is
@@ -100,6 +102,25 @@ func c10OpenBolt(dataset string) *c10Bolt {
 				e.SetStringList("kids", []string{"k1", "k2", "k3", "zz"}[i:], nil)
 				e.SetString("owner", "k1", nil)
 			}
+			if strings.HasPrefix(dataset, "mixed") {
+				// entities without any field and partially filled ones, before (A) or after (B) the full ones
+				ids := []string{"a0", "a1", "a2"}
+				if dataset == "mixedB" {
+					ids = []string{"z0", "z1", "z2"}
+				}
+				tb.GetOrCreatePath(ids[0])
+				e := tb.GetOrCreatePath(ids[1])
+				e.SetNil("s")
+				e.SetInt64("n", 7, nil)
+				e.SetBool("b", true, nil)
+				e.GetOrCreateBucket("ss")
+				e = tb.GetOrCreatePath(ids[2])
+				e.SetString("s", "m", nil)
+				e.SetFloat64("f", 2.5, nil)
+				e.SetTime("d", time.Unix(1577836800, 0).UTC(), nil)
+				e.SetNil("owner")
+				e.SetStringList("kids", []string{"k2"}, nil)
+			}
 		}
 		return nil
 	})
@@ -150,8 +171,11 @@ func (g *c10Gen) genBolt() {
 		"anyOf(ns) in [0, 5]", "anyOf(kids.ss) = \"x\"", "anyOf(kids.n) > 1", "owner.s = \"x\"", "owner = null", "tags.x = 5", `tags.x = "x"`,
 		"tags.x = true", "sort by s desc, n skip 1 limit 1", "limit none", "skip 5", "n = 4 or f > 1 and not b", "anyOf(kids) = \"k1\"",
 		"count(from kids where limit 5) > 1", "a = 1 @", "zz = 1", "not (n between 1 and 9)", "n not in [4, 9]", "s in [\"x\", \"X\"]",
-		"d > datetime(2020-01-01T00:00:00Z)", "d in [datetime(2020-01-01T00:00:00Z)]", "count(ns) >= 2", "isEmpty(ss) or isEmpty(ns)"}
-	for _, ds := range []string{"empty", "nulls", "full"} {
+		"d > datetime(2020-01-01T00:00:00Z)", "d in [datetime(2020-01-01T00:00:00Z)]", "count(ns) >= 2", "isEmpty(ss) or isEmpty(ns)",
+		"true sort by s", "true sort by s desc", "sort by n", "sort by n desc limit 2", "sort by f", "sort by f desc skip 1", "sort by b",
+		"sort by b desc", "sort by d", "sort by d desc", "sort by s, n, f, b, d", "sort by d desc, b, f desc, n, s desc", "sort by id desc",
+		"sort by owner", "sort by owner.s", "sort by tags.x", "sort by ss", "n > 0 sort by f limit 1", "f > 1.5 sort by n", "n > 1.5 sort by s"}
+	for _, ds := range []string{"empty", "nulls", "full", "mixedA", "mixedB"} {
 		for _, q := range fixed {
 			emit(ds, q)
 		}
@@ -165,6 +189,6 @@ func (g *c10Gen) genBolt() {
 	}()
 	for i := 0; i < n; i++ {
 		p := g.sentence(c10QIdents, 1+g.r.intn(3))
-		emit(pick(g.r, []string{"empty", "nulls", "full", "full"}), strings.Join(p, ""))
+		emit(pick(g.r, []string{"empty", "nulls", "full", "mixedA", "mixedB", "mixedA", "mixedB"}), strings.Join(p, ""))
 	}
 }
